@@ -622,7 +622,7 @@ def parseChunk(raw):  # reading transfer encoded raw
             (yield None)
 
         if line:  # not empty so raise error
-            raise ValueError("Chunk end error. Expected empty got "
+            raise HTTPException("Chunk end error. Expected empty got "
                      "'{0}' instead".format(line.decode('iso-8859-1')))
 
     (yield (size, parms, trails, chunk))
